@@ -123,15 +123,17 @@ type Env struct {
 func (e *Env) Thorough() bool { return e.Tier == "thorough" }
 
 // Exec runs one simulated process and feeds the statistics.
-func (e *Env) Exec(spec *simrt.Spec) *Out {
-	o := Exec(e.Bins.Sim, spec, "")
-	e.Stats.note(spec, o)
-	return o
-}
+func (e *Env) Exec(spec *simrt.Spec) *Out { return e.ExecProcs(spec, "") }
 
-// ExecProcs is Exec at a given GOMAXPROCS.
+// ExecProcs is Exec at a given GOMAXPROCS. A watchdog expiry is re-executed twice:
+// only a run that overruns the wall clock three times in a row counts as a hang
+// (ordinary runs take milliseconds; a single expiry under load is not a verdict).
 func (e *Env) ExecProcs(spec *simrt.Spec, procs string) *Out {
 	o := Exec(e.Bins.Sim, spec, procs)
+	for i := 0; i < 2 && o.TimedOut; i++ {
+		e.Stats.Counters["watchdog_retries"]++
+		o = Exec(e.Bins.Sim, spec, procs)
+	}
 	e.Stats.note(spec, o)
 	return o
 }
@@ -283,6 +285,38 @@ type Batterer interface {
 	Slice(c *Case, idx []int) *Case
 }
 
+// MultiBatterer: several fixed cases instead of one (each is reported whole).
+type MultiBatterer interface {
+	Batteries(env *Env) ([]*Case, [][]*Out)
+}
+
+func runBatteries(p Property, mb MultiBatterer, env *Env, reported map[string]bool) {
+	cs, os := mb.Batteries(env)
+	for i, c := range cs {
+		env.Stats.Cases++
+		env.Stats.NoteNontrivial(caseHash(c))
+		for _, d := range p.Eval(c, os[i]) {
+			if env.Census {
+				env.Stats.Counters["sig:"+d.Sig]++
+				continue
+			}
+			if k := matchKnown(env.Known, p.ID(), d.Sig); k != nil {
+				env.Stats.KnownHit[k.Signature]++
+				continue
+			}
+			if reported[d.Sig] {
+				continue
+			}
+			reported[d.Sig] = true
+			r := Replay{Property: p.ID(), Signature: d.Sig, Detail: d.Detail + " [fixed battery world]", Seed: env.Seed, Shard: env.Shard, Tier: env.Tier, Case: *c}
+			for _, o := range os[i] {
+				r.Hashes = append(r.Hashes, o.Hash(true))
+			}
+			env.Stats.Violations = append(env.Stats.Violations, r)
+		}
+	}
+}
+
 func runBattery(p Property, b Batterer, env *Env, reported map[string]bool) {
 	c, outs := b.Battery(env)
 	if c == nil {
@@ -334,6 +368,9 @@ func RunShard(p Property, env *Env) {
 	reported := map[string]bool{} // signatures already minimised and recorded by this shard
 	if b, ok := p.(Batterer); ok && env.Shard == 0 {
 		runBattery(p, b, env, reported)
+	}
+	if mb, ok := p.(MultiBatterer); ok && env.Shard == 0 {
+		runBatteries(p, mb, env, reported)
 	}
 	for round := 0; round < maxRounds(env); round++ {
 		target := "" // signature being minimised
